@@ -6,6 +6,7 @@ import copy
 from vmc import framework as fw
 from vmc import probes, shapes, worlds
 from vmc import structural as st
+from vmc import agents
 from vmc.ref import resolve as rr
 from vmc.props import C06
 
@@ -24,7 +25,11 @@ RULE = (
     'Oracle at EVERY calculate_timestep / update_condition / next_update '
     'call: states == independent projection of the whole-hierarchy '
     'snapshot taken at the same moment through the reference resolver. '
-    'A case is one (shape) or one (history, issuer, observer timestep).')
+    'A case is one (shape) or one (history, issuer, observer timestep). '
+    'Plus the agents family (controllers inside dividing / dying / '
+    'migrating compartments that watch both containers) and watchers with '
+    'an empty glob over a store whose children are added / generated / '
+    'deleted.')
 ASSUMPTIONS = [
     'the snapshot is Engine.state.get_value() read inside the observer\'s '
     'own callback',
@@ -251,6 +256,57 @@ def special_worlds():
     return out
 
 
+def empty_glob_worlds():
+    """A watcher whose glob port declares NO sub-variables ('*': {}, as the
+    repository's Engulf / Burst / SwapProcesses do) over a store nobody
+    gives a sub-schema: it must still see one entry per current child
+    after _add / _delete / _generate by another process."""
+    out = []
+    leaf = shapes.leaf
+    ops = {
+        'add': {'pool': {'_add': [{'key': 'k1', 'state': {}}]}},
+        'generate': {'pool': {'_generate': [{
+            'key': 'k1', 'processes': {}, 'topology': {},
+            'initial_state': {}}]}},
+        # added, and deleted one tick later
+        'delete': {'pool': {'_delete': ['k1']}},
+    }
+    for op, upd in ops.items():
+        for tick in (0, 1):
+            for issuer in ('P', 'S'):
+                n = tick if issuer == 'P' else tick + 1
+                spec = {
+                    'processes': {
+                        'obs': {'cls': 'P', 'pid': 'obs', 'ts': 1,
+                                'log_snapshot': True,
+                                'schema': {'pool': {'*': {}}},
+                                'update': {}},
+                        'member': {'cls': 'P', 'pid': 'member', 'ts': 1,
+                                   'log_states': False,
+                                   'schema': {'me': {'v': leaf(1)},
+                                              'you': {'v': leaf(2)}},
+                                   'update': {}}},
+                    'steps': {}, 'flow': {},
+                    'topology': {'obs': {'pool': ('pool',)},
+                                 'member': {'me': ('pool', 'a0'),
+                                            'you': ('pool', 'b0')},
+                                 'adder': {'pool': ('pool',)}},
+                    'script': [('update', 4)]}
+                adder = {'cls': issuer, 'pid': 'adder', 'ts': 1,
+                         'log_states': False, 'schema': {'pool': {}},
+                         'update': {'$n': {n: upd}, '$else': {}}}
+                if op == 'delete':
+                    adder['update'] = {'$n': {n: ops['add'], n + 1: upd},
+                                       '$else': {}}
+                if issuer == 'P':
+                    spec['processes']['adder'] = adder
+                else:
+                    spec['steps']['adder'] = adder
+                    spec['flow']['adder'] = []
+                out.append((f'empty-glob:{op}:{issuer}:tick={tick}', spec))
+    return out
+
+
 def run_special(job, acc):
     _, label, spec = job
     case = {'part': 'S', 'label': label}
@@ -272,6 +328,27 @@ def run_special(job, acc):
                     V('C07.view', 'starstar-port',
                       f'"**" port: states {ev[6]}, hierarchy gives {want}')
                     return
+        return
+    if label.startswith('empty-glob'):
+        snap, n_changes, last = None, 0, None
+        for ev in ex.trace:
+            if ev[0] == 'snap' and ev[2] == 'obs':
+                snap = ev[5]
+            if ev[0] == 'invoke' and ev[2] == 'obs':
+                want = sorted(k for k, v in snap['pool'].items()
+                              if v != '<process>')
+                got = sorted(ev[6].get('pool', {}))
+                if got != want:
+                    V('C07.view', 'empty-glob-misses-or-keeps-children',
+                      f'{label}: next_update of obs at t={ev[4]}: the '
+                      f'"*": {{}} port lists {got}, the store holds {want}')
+                    return
+                if last is not None and want != last:
+                    n_changes += 1
+                last = want
+        if n_changes != (2 if ':delete:' in label else 1):
+            V('C07.view', 'empty-glob-world-vacuous',
+              f'{label}: the pool changed {n_changes} times')
         return
     if label.startswith('replace-store'):
         check_trace(ex, 'obs', spec['processes']['obs']['schema'],
@@ -446,7 +523,9 @@ def run_b(job, acc):
 
 
 def run_job(job, acc):
-    if job[0] == 'X':
+    if job[0] == 'agents':
+        agents.judge(job[1:], acc, 'C07')
+    elif job[0] == 'X':
         run_x(job, acc)
     elif job[0] == 'S':
         run_special(job, acc)
@@ -461,7 +540,7 @@ def jobs(ctx):
         out.append(('X', shape, 'output'))
     for shape in shapes.multi_port_shapes(2, reduced=True):
         out.append(('X', shape, 'plain'))
-    for label, spec in special_worlds():
+    for label, spec in special_worlds() + empty_glob_worlds():
         out.append(('S', label, spec))
     depth = BOUNDS[ctx.tier]['depth']
     for init_i, init in enumerate(INITS):
@@ -479,6 +558,10 @@ def jobs(ctx):
             init, 'full', depth, with_pairs=False, gen_kind='full')
         for h in hists:
             out.append(('B', init_i, h, 'step', 1, 'full'))
+    # controllers inside the compartments that watch both containers while
+    # they divide / delete / move themselves and their siblings
+    out += [('agents',) + j for j in agents.jobs(
+        2 if ctx.quick else 3, lite=True)]
     return out
 
 
@@ -492,10 +575,12 @@ def replay(case):
     def tup(x):
         return tuple(tup(y) for y in x) if isinstance(x, (list, tuple)) \
             else x
-    if case['part'] == 'X':
+    if case.get('family') == 'agents':
+        agents.judge(tup(case['job']), acc, 'C07')
+    elif case['part'] == 'X':
         run_x(('X', case['shape'], case['variant']), acc)
     elif case['part'] == 'S':
-        for label, spec in special_worlds():
+        for label, spec in special_worlds() + empty_glob_worlds():
             if label == case['label']:
                 run_special(('S', label, spec), acc)
     else:
